@@ -246,6 +246,12 @@ def rule_html(ctx: Ctx):
         ctx.ob("R-C20-5", "clean.html/query", okq,
                f"the query selects all non-blank text nodes whose parent is not one of style/link/head/script (excluded parents: {sorted(parents)})", node=xp[0], mod=m)
     rets = [r for r in walk_local(fn) if isinstance(r, ast.Return)]
+    # a document lxml refuses as empty has no text nodes: `return ""` in the handler of the parser's error is the same answer
+    def _empty_in_parse_handler(r):
+        cur_ = getattr(r, "parent", None)
+        return isinstance(r.value, ast.Constant) and r.value.value == "" and isinstance(cur_, ast.ExceptHandler) and cur_.type is not None \
+            and (dotted(cur_.type) or "").endswith("ParserError")
+    rets = [r for r in rets if not _empty_in_parse_handler(r)]
     okj = len(rets) == 1 and isinstance(rets[0].value, ast.Call) and norm(rets[0].value.func) == "' '.join" and xp and len(rets[0].value.args) == 1 and (
         rets[0].value.args[0] is xp[0]
         or any(isinstance(s, ast.Assign) and s.value is xp[0] and norm(s.targets[0]) == norm(rets[0].value.args[0]) for s in stmts_local(fn.body)))
